@@ -224,3 +224,205 @@ func fnNamed(full string) func(*ssa.Function) bool {
 
 // controlFacts: like At, for the block of an instruction.
 func (ff *fnFacts) Of(ins ssa.Instruction) []condFact { return ff.At(ins.Block()) }
+
+// ---- expanded calls: the calls a function makes, looking through module helpers (virtual inlining) ----
+
+type xcall struct {
+	Call  *ssa.Call
+	Fn    *ssa.Function   // function that contains the call
+	Facts []condFact      // branch facts at the call, including those inherited along the chain of call sites
+	Chain []*ssa.Call     // call instructions from the root function down to (and including) Call
+	bind  map[ssa.Value]ssa.Value
+}
+
+// Root maps a value of Fn to the value of the root function it stands for (parameters bound along the chain).
+func (x *xcall) Root(v ssa.Value) ssa.Value {
+	for i := 0; i < 8; i++ {
+		r, ok := x.bind[v]
+		if !ok {
+			return v
+		}
+		v = r
+	}
+	return v
+}
+
+func expandCalls(c *Ctx, root *ssa.Function, follow func(*ssa.Function) bool, maxDepth int) []xcall {
+	var out []xcall
+	var rec func(fn *ssa.Function, inherited []condFact, bind map[ssa.Value]ssa.Value, chain []*ssa.Call, depth int, onStack map[*ssa.Function]bool)
+	rec = func(fn *ssa.Function, inherited []condFact, bind map[ssa.Value]ssa.Value, chain []*ssa.Call, depth int, onStack map[*ssa.Function]bool) {
+		ff := Facts(c, fn)
+		for _, b := range fn.Blocks {
+			if !ff.Reachable(b) {
+				continue
+			}
+			for _, ins := range b.Instrs {
+				call, ok := ins.(*ssa.Call)
+				if !ok {
+					continue
+				}
+				facts := append(append([]condFact(nil), inherited...), ff.At(b)...)
+				ch := append(append([]*ssa.Call(nil), chain...), call)
+				x := xcall{Call: call, Fn: fn, Facts: facts, Chain: ch, bind: bind}
+				out = append(out, x)
+				cl := call.Common().StaticCallee()
+				if cl == nil || len(cl.Blocks) == 0 || depth >= maxDepth || onStack[cl] || !follow(cl) {
+					continue
+				}
+				nb := map[ssa.Value]ssa.Value{}
+				for k, v := range bind {
+					nb[k] = v
+				}
+				for i, p := range cl.Params {
+					if i < len(call.Common().Args) {
+						nb[p] = x.Root(call.Common().Args[i])
+					}
+				}
+				onStack[cl] = true
+				rec(cl, facts, nb, ch, depth+1, onStack)
+				delete(onStack, cl)
+			}
+		}
+	}
+	rec(root, nil, map[ssa.Value]ssa.Value{}, nil, 0, map[*ssa.Function]bool{root: true})
+	return out
+}
+
+// mayPrecede: can a execute before b in one run of the root function? (compared at the first level where the chains differ)
+func mayPrecede(a, b xcall) bool {
+	for k := 0; k < len(a.Chain) && k < len(b.Chain); k++ {
+		if a.Chain[k] == b.Chain[k] {
+			continue
+		}
+		ia, ib := a.Chain[k], b.Chain[k]
+		if ia.Block() == ib.Block() {
+			for _, ins := range ia.Block().Instrs {
+				if ins == ssa.Instruction(ia) {
+					return true
+				}
+				if ins == ssa.Instruction(ib) {
+					break
+				}
+			}
+			// b comes first in the block: a precedes b only around a loop
+		}
+		seen := map[*ssa.BasicBlock]bool{}
+		work := append([]*ssa.BasicBlock(nil), ia.Block().Succs...)
+		for len(work) > 0 {
+			blk := work[len(work)-1]
+			work = work[:len(work)-1]
+			if blk == ib.Block() {
+				return true
+			}
+			if seen[blk] {
+				continue
+			}
+			seen[blk] = true
+			work = append(work, blk.Succs...)
+		}
+		return false
+	}
+	return false
+}
+
+// ---- facts that hold at a site because every caller establishes them ----
+
+type callSite struct {
+	Fn   *ssa.Function
+	Call *ssa.Call
+}
+
+type siteIndex struct {
+	sites map[*ssa.Function][]callSite
+	taken map[*ssa.Function]bool // referenced other than as the callee of a static call
+}
+
+func sitesOf(c *Ctx) *siteIndex {
+	return c.Memo("siteIndex", func() interface{} {
+		ix := &siteIndex{sites: map[*ssa.Function][]callSite{}, taken: map[*ssa.Function]bool{}}
+		for _, g := range c.P.ModFns {
+			for _, b := range g.Blocks {
+				for _, ins := range b.Instrs {
+					var callee ssa.Value
+					switch x := ins.(type) {
+					case *ssa.Call:
+						callee = x.Common().Value
+						if cl := x.Common().StaticCallee(); cl != nil {
+							ix.sites[cl] = append(ix.sites[cl], callSite{g, x})
+						}
+					case *ssa.Go:
+						callee = x.Common().Value
+						if cl := x.Common().StaticCallee(); cl != nil {
+							ix.taken[cl] = true
+						}
+					case *ssa.Defer:
+						callee = x.Common().Value
+						if cl := x.Common().StaticCallee(); cl != nil {
+							ix.taken[cl] = true
+						}
+					}
+					for _, op := range ins.Operands(nil) {
+						if op == nil || *op == nil {
+							continue
+						}
+						if fn, ok := (*op).(*ssa.Function); ok && *op != callee {
+							ix.taken[fn] = true
+						}
+					}
+				}
+			}
+		}
+		return ix
+	}).(*siteIndex)
+}
+
+// holdsUpward: pred holds for the facts at block b of f, or — when f is an unexported function that is only ever called
+// statically — for the facts at b joined with those at each of its call sites (recursively, depth levels up). root maps
+// a value to the caller-side value it stands for (parameters bound to arguments along the chain).
+func holdsUpward(c *Ctx, f *ssa.Function, b *ssa.BasicBlock, depth int, pred func(facts []condFact, root func(ssa.Value) ssa.Value) bool) bool {
+	ix := sitesOf(c)
+	var rec func(f *ssa.Function, b *ssa.BasicBlock, facts []condFact, bind map[ssa.Value]ssa.Value, depth int, stack map[*ssa.Function]bool) bool
+	rec = func(f *ssa.Function, b *ssa.BasicBlock, facts []condFact, bind map[ssa.Value]ssa.Value, depth int, stack map[*ssa.Function]bool) bool {
+		all := append(append([]condFact(nil), facts...), Facts(c, f).At(b)...)
+		root := func(v ssa.Value) ssa.Value {
+			for i := 0; i < 8; i++ {
+				r, ok := bind[v]
+				if !ok {
+					return v
+				}
+				v = r
+			}
+			return v
+		}
+		if pred(all, root) {
+			return true
+		}
+		if depth == 0 || ix.taken[f] || stack[f] || len(ix.sites[f]) == 0 {
+			return false
+		}
+		if f.Object() != nil && f.Object().Exported() {
+			return false
+		}
+		stack[f] = true
+		defer delete(stack, f)
+		for _, cs := range ix.sites[f] {
+			nb := map[ssa.Value]ssa.Value{}
+			for k, v := range bind {
+				nb[k] = v
+			}
+			for i, p := range f.Params {
+				if i < len(cs.Call.Common().Args) {
+					nb[p] = cs.Call.Common().Args[i]
+				}
+			}
+			if !Facts(c, cs.Fn).Reachable(cs.Call.Block()) {
+				continue
+			}
+			if !rec(cs.Fn, cs.Call.Block(), all, nb, depth-1, stack) {
+				return false
+			}
+		}
+		return true
+	}
+	return rec(f, b, nil, map[ssa.Value]ssa.Value{}, depth, map[*ssa.Function]bool{})
+}
